@@ -230,6 +230,17 @@ func (w *World) execCreateBinding(stepIdx int, st *Step) {
 			d := append(append([]byte{}, digest...), 0)[:keep]
 			check(fmt.Sprintf("digest-length-%d:%s", keep-len(digest), pathClass(l.path)), editPath(req, l.path, ref.B64(ref.MultihashBytes(code, d)), false), l.path[0] == "suffixData")
 		}
+		// the same digest under codes that are not configured (other registered hash functions, the identity code)
+		for _, other := range []uint{0x16, 0x1b, 0x11, 0x00, ref.SHA256 + ref.SHA512 - code} {
+			n++
+			if st.Index > 0 && st.Index != n {
+				continue
+			}
+			if other == code {
+				continue
+			}
+			check(fmt.Sprintf("hash-code-%#x:%s", other, pathClass(l.path)), editPath(req, l.path, ref.B64(ref.MultihashBytes(other, digest)), false), l.path[0] == "suffixData")
+		}
 	}
 	// members ADDED to objects inside the patches (generic JSON there: every member is hashed); names a lenient
 	// implementation might strip or special-case (private JWK parts, members of neighbouring models)
@@ -280,6 +291,10 @@ func (w *World) execCreateBinding(stepIdx int, st *Step) {
 			}
 			check(fmt.Sprintf("retyped%d:%s", vi, pathClass(l.path)), editPath(req, l.path, alt, false), l.path[0] == "suffixData")
 		}
+	}
+	// after everything this parser has been shown and has refused, the original request still denotes the same DID
+	if res4, err4 := parser.Parse(ns, op.Bytes); err4 != nil || res4.UniqueSuffix != wantSuffix || res4.ID != res.ID {
+		w.violate("C03/same-request-other-did-later", op.Builder, "the original create, parsed again after the modifications, denotes %v (err %v) instead of %s", res4, err4, res.ID)
 	}
 }
 
@@ -532,6 +547,11 @@ func (w *World) execCAS(stepIdx int, st *Step) {
 		b[i] = nc
 		tryHash("char_changed", string(b))
 		tryHash("truncated", h[:i])
+	}
+	// characters that are not in the alphabet but that lenient decoders skip: the string is not the hash, and not base64url
+	for _, k := range []int{0, len(h) / 2, len(h)} {
+		tryHash("line_break_inserted", h[:k]+"\n"+h[k:])
+		tryHash("line_break_inserted", h[:k]+"\r\n"+h[k:])
 	}
 	tryHash("non_alphabet", "*"+h[1:])
 	tryHash("padded", h+"=")
@@ -812,6 +832,21 @@ func (w *World) execJWS(stepIdx int, st *Step) {
 	wrongCrv := *jwk
 	wrongCrv.Crv = "P-999"
 	mustFail("unsupported_crv", "unknown curve", compact, &wrongCrv)
+	// a curve / key-type name is supported only in its exact spelling: other letter cases and characters that case folding identifies
+	// with its letters (Kelvin sign, long s) name nothing
+	for _, v := range []string{strings.ToUpper(jwk.Crv), strings.ToLower(jwk.Crv), strings.Replace(strings.Replace(jwk.Crv, "k", "\u212a", 1), "s", "\u017f", 1), " " + jwk.Crv, jwk.Crv + " "} {
+		if v == jwk.Crv {
+			continue
+		}
+		alt := *jwk
+		alt.Crv = v
+		mustFail("unsupported_crv", fmt.Sprintf("curve name spelled %q", v), compact, &alt)
+	}
+	for _, v := range []string{strings.ToLower(jwk.Kty), jwk.Kty + " "} {
+		alt := *jwk
+		alt.Kty = v
+		mustFail("unsupported_kty", fmt.Sprintf("key type spelled %q", v), compact, &alt)
+	}
 	// nothing the faults above did may have changed what the matching key verifies (state kept between calls)
 	if got2, verr2 := jwsutil.VerifyJWS(compact, jwk); verr2 != nil || got2 == nil || !bytes.Equal(got2.Payload, payload) {
 		w.violate("C15/valid-rejected-after-faults", key.Type.String(), "the untouched JWS no longer verifies under the matching %s key after the fault enumeration: %v", key.Type, verr2)
@@ -891,6 +926,13 @@ func (w *World) execJWK(stepIdx int, st *Step) {
 	}
 	// corruptions of the wire JWK must be rejected
 	n := 0
+	// a genuine signature of the key: a corrupted JWK must not verify it (verified under the good JWK first, so that whatever the
+	// verifier remembers about keys it has seen is in place)
+	sigMsg := []byte("message signed by the key under test")
+	goodSig := key.SignRaw(sigMsg)
+	if verr := jwsutil.VerifySignature(jwk, goodSig, sigMsg); verr != nil {
+		w.violate("C16/good-jwk-does-not-verify", wit, "a genuine signature does not verify under the key's own JWK: %v", verr)
+	}
 	var rawText []byte
 	mustReject := func(class string, m map[string]any) {
 		n++
@@ -903,10 +945,15 @@ func (w *World) execJWK(stepIdx int, st *Step) {
 		if m == nil {
 			b = rawText
 		}
+		// the JWK as a value, its members taken by their exact names (raw-text variants are only read back as text: Go's
+		// encoding/json matches member names case-insensitively and takes the last duplicate, which is not the subject here)
 		var asJWK jws.JWK
-		_ = json.Unmarshal(b, &asJWK)
+		if m != nil {
+			str := func(k string) string { v, _ := m[k].(string); return v }
+			asJWK = jws.JWK{Kty: str("kty"), Crv: str("crv"), X: str("x"), Y: str("y")}
+		}
 		_, rerr := readBack(b)
-		verr := jwsutil.VerifySignature(&asJWK, make([]byte, 2*key.Type.CoordSize()), []byte("msg"))
+		verr := jwsutil.VerifySignature(&asJWK, goodSig, sigMsg)
 		if key.Type == Ed25519 {
 			_, gerr := jwsutil.GetED25519PublicKey(&asJWK)
 			if gerr == nil {
@@ -917,7 +964,7 @@ func (w *World) execJWK(stepIdx int, st *Step) {
 		if rerr == nil {
 			w.violate("C16/corrupt-jwk-accepted", wit+":"+class, "JWK.UnmarshalJSON accepted a corrupted JWK (%s): %s", class, b)
 		}
-		if verr == nil {
+		if verr == nil && m != nil {
 			w.violate("C16/corrupt-jwk-verifies", wit+":"+class, "VerifySignature succeeded under a corrupted JWK (%s)", class)
 		}
 	}
@@ -992,6 +1039,16 @@ func (w *World) execJWK(stepIdx int, st *Step) {
 		} {
 			rawText = []byte(txt)
 			mustReject("member_name_case_or_duplicate", nil)
+		}
+		// the encoded TEXT of x and y with the boundary between them moved (their concatenation is intact)
+		xt, yt := ref.B64(key.X), ref.B64(key.Y)
+		for _, k := range []int{1, 4, len(yt)} {
+			m := ref.Clone(want).(map[string]any)
+			m["x"], m["y"] = xt+yt[:k], yt[k:]
+			mustReject("coordinate_text_boundary_moved", m)
+			m2 := ref.Clone(want).(map[string]any)
+			m2["x"], m2["y"] = xt[:len(xt)-k], xt[len(xt)-k:]+yt
+			mustReject("coordinate_text_boundary_moved", m2)
 		}
 		// the same point bytes with the boundary between x and y moved: each coordinate has the wrong width, their concatenation is intact
 		xy := append(append([]byte{}, key.X...), key.Y...)
